@@ -23,22 +23,27 @@ for _pid in PENDING:
     PROPS.pop(_pid, None)
     LEVEL_TEXT.pop(_pid, None)
 
-# Lean theorem modules added by the main model on top of what each Cxx.py declares
+# Lean theorem modules added by the main model on top of what each Cxx.py declares. A helper module is listed for a
+# property when the property's claim text NAMES a theorem that is defined there (run_eq_runTokens, scan_spell,
+# scan_line_at, fits_break, lineRel_renderNode, parse_rangeArgs, incQuiet_mkCtx, trimComm_of_valid, objRe_m, tagRe_m,
+# lazyUnits, scanLoop_spell, parseTokens_unsrc, compileList_unsrc, faulty_spec ...): every theorem a claim quotes is
+# then audited with `#print axioms` under its own name, not only through the theorems that use it.
 EXTRA_MODULES = {
-    "C05": ["Proofs.C05Render"],
-    "C07": ["Proofs.C07", "Proofs.C07Lines", "Proofs.C07Source"],
-    "C08": ["Proofs.C08", "Proofs.C08Source"],
-    "C10": ["Proofs.C10", "Proofs.C10Source"],
-    "C11": ["Proofs.C11", "Proofs.C11Source"],
+    "C05": ["Proofs.C05Render", "Proofs.E2ERun", "Proofs.C19E2E"],
+    "C07": ["Proofs.C07", "Proofs.C07Lines", "Proofs.C07Source", "Proofs.C05"],
+    "C08": ["Proofs.C08", "Proofs.C08Source", "Proofs.ExprLexemes"],
+    "C10": ["Proofs.C10", "Proofs.C10Source", "Proofs.SrcRelRender", "Proofs.C19E2E"],
+    "C11": ["Proofs.C11", "Proofs.C11Source", "Proofs.SrcLoop"],
+    "C13": ["Proofs.RunLemmas", "Proofs.HyphenFace"],
     "C12": ["Proofs.C12", "Proofs.C12Source"],
     "C14": ["Proofs.C14", "Proofs.C14Source"],
     "C18": ["Proofs.C18"],
-    "C19": ["Proofs.C19"],
+    "C19": ["Proofs.C19", "Proofs.E2EToken", "Proofs.E2EUnits", "Proofs.E2EScan", "Proofs.E2ECompile", "Proofs.E2EEquiv"],
     "C01": ["Proofs.C01", "Proofs.NoPanic", "Proofs.StdNoPanic", "Proofs.ArrNoPanic", "Proofs.JsonFilter", "Proofs.DateFilter"],
     "C17": ["Proofs.DateFilter"],
     "C02": ["Proofs.C02", "Proofs.JsonFilter"],
     "C03": ["Proofs.C03"],
-    "C20": ["Proofs.C20", "Proofs.C20Source"],
+    "C20": ["Proofs.C20", "Proofs.C20Source", "Proofs.ProgLemmas", "Proofs.RenderStops"],
 }
 for _pid, _mods in EXTRA_MODULES.items():
     if _pid in PROPS:
@@ -78,7 +83,8 @@ TRANSLATOR_TIES = {
                    "tokenRe printed in Go syntax. Trusted there: the Lean reading of fmt.Sprintf (%s, %v, %%), regexp.QuoteMeta, "
                    "strings.Join and of the range loop over an ASCII string (TokenReSrc.pattern), the printer Re.toGoSyntax "
                    "(that its text denotes the expression), and the one normalisation (?s:.+?) = (?s:.)+?; that Go's regexp "
-                   "reads the text as the model's matcher reads the expression is tied by the scan/delims streams, not by T4",
+                   "reads the text as the model's matcher reads the expression is tied by the `rex` stream (and through parser.Scan by "
+                   "`scan` under C05 - default delimiters only - and by `delims` under C19), not by T4",
     },
     "map_iterations_audited": {
         "props": ["C02"],
@@ -88,7 +94,8 @@ TRANSLATOR_TIES = {
                  "with go/ssa, and the obligation map_iterations_audited re-checks that each is one of the eight audited sites "
                  "of Liquid/MapIterFacts.lean (keys sorted before use: SortedMapKeys, ParentTags, makeIterationKeyedMap; every "
                  "entry copied into a fresh map: Clone, newNodeContext, RenderFile, Convert; a conjunction over all entries: "
-                 "equalMaps); a new map iteration in the source, or an audited sorter that no longer sorts, breaks the check.",
+                 "equalMaps); a new map iteration in the source, or an audited sorter whose function no longer calls into package sort (that is all that is "
+                 "checked of 'sorted before use'), breaks the check.",
         "trusted": "translator T5 (translate/mapiter.go, go/ssa, nothing executed) lists ssa.Range instructions over map types and "
                    "static calls of reflect.Value.MapKeys / MapRange in the library packages; the justification of each audited site "
                    "(Liquid/MapIterFacts.lean) is a reading of the source, not a proof; iteration reached through other APIs "
@@ -99,15 +106,33 @@ TRANSLATOR_TIES = {
         "module": "Proofs.GlobalCalls",
         "claim": "Source tie against package-level caches (translator T3, call facts, re-run on every check): every call outside "
                  "init that hands a package-level variable of the library - its address, or the pointer, map, slice or interface "
-                 "it holds - to a function or method outside the read-only list (regexp, reflect, fmt, strings, strconv, sort, "
-                 "time, ...) is listed with go/ssa, and the obligation global_calls_audited re-checks that only the five audited "
-                 "read-only variables occur (two reflect.Type values, invalidLoc, the two loop sentinels); a sync.Map, sync.Pool "
-                 "or memo table added at package level - state that survives a render and is shared by all goroutines - breaks "
-                 "the check.",
+                 "it holds - to a callee is listed with go/ssa, unless the callee belongs to a standard-library package trusted by "
+                 "path as read-only (regexp, reflect, fmt, strings, strconv, unicode, errors, math, time, html, net/url; not sort, "
+                 "not bytes; strings.Builder methods and reflect.Value.Set* are listed); the obligation global_calls_audited "
+                 "re-checks that only the five audited read-only variables occur (two reflect.Type values, invalidLoc, the two "
+                 "loop sentinels). A sync.Map, a sync.Pool, a package-level slice sorted in place or a table behind a package-level "
+                 "mutex breaks the check; a package-level map or variable written directly (m[k] = v) is a store, not a call: "
+                 "that breaks no_shared_writes.",
         "trusted": "translator T3 call facts (translate/writes.go globalCalls, go/ssa, nothing executed): receivers and arguments "
-                   "whose address roots in a package-level variable of the library; callees in the standard-library read-only list are "
-                   "trusted not to write through their arguments; the five audited variables (Liquid/ConcFacts.lean) are justified by "
+                   "whose address roots in a package-level variable of the library; callees in the standard-library packages trusted by path (a list "
+                   "of packages, not of functions: regexp, reflect, fmt, strings, strconv, unicode, unicode/utf8, errors, math, time, "
+                   "html, net/url, minus strings.Builder methods and reflect.Value.Set*/Grow/Clear) are trusted not to write through "
+                   "their arguments; the five audited variables (Liquid/ConcFacts.lean) are justified by "
                    "reading the callee; state kept in struct fields of the engine or of a template is not covered by this rule",
+    },
+    # C04 declares this obligation itself (C04.py); C02 and C03 get it here: a memo table kept in a plain package-level map
+    # is a STORE fact (class global), not a call fact, so global_calls_audited alone would not see it.
+    "no_shared_writes": {
+        "props": ["C02", "C03"],
+        "module": "Proofs.C04",
+        "claim": "Source tie against package-level state written directly (translator T3, store facts, re-run on every check): the "
+                 "obligation no_shared_writes (Proofs/C04.lean, `decide` over every store rooted in a captured or package-level "
+                 "variable, listed with go/ssa) re-checks that no package-level variable is stored to outside init and no closure "
+                 "that outlives its creator stores to a captured variable; a memo table or counter in a package-level variable "
+                 "written during a render breaks it. Stores through pointer parameters or receivers are not followed.",
+        "trusted": "translator T3 store facts (translate/writes.go, go/ssa, nothing executed): stores rooted in captured or "
+                   "package-level variables of the library packages; the escape rule over-approximates closures that outlive their "
+                   "creator; writes through pointer parameters and receivers are not followed",
     },
 }
 for _name, _t in TRANSLATOR_TIES.items():
